@@ -27,6 +27,13 @@ arithmetics.jaccard / forbes, whose interval arguments are documented as "Must b
 on sets that are NOT listed in ascending start order (case key "listing": every permutation of the enumerated sets, for
 both operands); the per-base definitions do not depend on the listing order, so the oracle is the same.
 Every contract also checks that the input Interval object is left unchanged by the call.
+  merge_grouped / count_overlap_grouped   the PER-CHROMOSOME entry point of the two functions that bionumpy wraps in
+                       chromosome_map: merge_intervals(groupby(I, "chromosome"), d) over genomes of 1..4 contigs must yield,
+                       for every chromosome of I in its order of appearance, the maximal runs of THAT chromosome's union bridged
+                       by d; count_overlap(groupby(A, "chromosome"), {chromosome: B on it}) must be the number of common bases
+                       over all chromosomes.  Every way of passing the arguments is a case of its own (stream and the other
+                       arguments positionally, by keyword, mixed, distance left out), chromosome column as strings and as a
+                       StringEncoding column.
 """
 import itertools
 from fractions import Fraction
@@ -599,11 +606,124 @@ def chk_geom(col, case):
             _extend_rows(col, "Geometry.extend_to_size", case, [r[1:4] for r in rows], [sz[r[0]] for r in rows], L, got)
     unchanged(col, "Geometry." + op[5:], case, before, I)
 
+# -- the per-chromosome entry point (chromosome_map): a grouped stream / a per-chromosome dict instead of one Interval object --
+MERGE_CALL_STYLES = ("positional", "distance-by-keyword", "all-by-keyword", "distance-omitted")
+OVERLAP_CALL_STYLES = ("positional", "b-by-keyword", "all-by-keyword")
+_GROUPED_DICT_CLASS = []
+
+
+def per_chromosome_dict(mapping):
+    """a caller-side mapping chromosome -> data marked with bionumpy.streams.grouped_dict (the 'ChromosomeProvider' that
+    chromosome_map looks up per chromosome)"""
+    if not _GROUPED_DICT_CLASS:
+        from bionumpy.streams import grouped_dict
+
+        @grouped_dict("chromosome")
+        class PerChromosome(dict):
+            pass
+        _GROUPED_DICT_CLASS.append(PerChromosome)
+    return _GROUPED_DICT_CLASS[0](mapping)
+
+
+def group_names(rows):
+    out = []
+    for r in rows:
+        if not out or out[-1] != r[0]:
+            out.append(r[0])
+    return out
+
+
+def grouped_rows_ok(rows):
+    """precondition of groupby + merge_intervals: at least one row, the rows of a chromosome are adjacent, starts ascend"""
+    names = group_names(rows)
+    return bool(rows) and len(names) == len(set(names)) and all(x[0] != y[0] or x[1] <= y[1] for x, y in zip(rows, rows[1:]))
+
+
+def chk_merge_grouped(col, case):
+    """case: sizes [[name,S],...], rows [[chrom,a,b],...] (rows of a chromosome adjacent and start-sorted, >= 1 row), d,
+    optional encoding (names of a StringEncoding for the chromosome column), optional styles (default: all)"""
+    from bionumpy.arithmetics import merge_intervals
+    from bionumpy.streams import groupby
+    sizes = dict(tuple(x) for x in case["sizes"])
+    rows, d = [tuple(r) for r in case["rows"]], case["d"]
+    names = list(case["encoding"]) if case.get("encoding") else None
+    if not grouped_rows_ok(rows):
+        return
+    dt = "distance=0" if d == 0 else "distance>0"
+    exp = [(n, ref_merge([r[1:] for r in rows if r[0] == n], sizes[n], d)) for n in group_names(rows)]
+    for style in case.get("styles") or MERGE_CALL_STYLES:
+        if style == "distance-omitted" and d != 0:
+            continue
+        col.case(dict(case, style=style), nontrivial=True, contract="merge/per-chromosome")
+        I = mk_rows(rows)
+        if names is not None:
+            I = string_encode(I, names)
+        before = [snapshot(I, names)]
+
+        def call():
+            stream = groupby(I, "chromosome")
+            if style == "positional":
+                res = merge_intervals(stream, d)
+            elif style == "distance-by-keyword":
+                res = merge_intervals(stream, distance=d)
+            elif style == "all-by-keyword":
+                res = merge_intervals(intervals=stream, distance=d)
+            else:
+                res = merge_intervals(stream)
+            return [(str(n), pairs_of(m), chrom_names(m, names) if len(m) else []) for n, m in res]
+
+        got = col.guarded(call, "merge:per-chromosome:%s:%s" % (style, dt), case)
+        if got is None:
+            continue
+        what = "call style %s, distance %d: got %r expected %r" % (style, d, [g[:2] for g in got], exp)
+        if not col.check([g[0] for g in got] == [e[0] for e in exp], "merge:per-chromosome:chromosomes-yielded:" + style, case, what):
+            continue
+        col.check([g[:2] for g in got] == exp, "merge:per-chromosome:not-maximal-runs-of-union:%s:%s" % (dt, style), case, what)
+        col.check(all(set(g[2]) <= {g[0]} for g in got), "merge:per-chromosome:chromosome-changed", case,
+                  "chromosome columns %r" % ([(g[0], g[2]) for g in got],))
+        unchanged(col, "merge:per-chromosome", case, before, (I, names))
+
+
+def chk_count_overlap_grouped(col, case):
+    """case: sizes [[name,S],...], A, B rows [chrom,a,b] (per chromosome non-overlapping; A with >= 1 row, rows of a chromosome
+    adjacent).  A goes in as groupby(A, "chromosome"), B as a per-chromosome dict with an entry for every contig"""
+    from bionumpy.arithmetics import count_overlap
+    from bionumpy.streams import groupby
+    sizes = [tuple(x) for x in case["sizes"]]
+    A, B = [tuple(r) for r in case["A"]], [tuple(r) for r in case["B"]]
+    if not grouped_rows_ok(A):
+        return
+    exp = 0
+    for n, S in sizes:
+        ca, cb = cov([r[1:] for r in A if r[0] == n], S), cov([r[1:] for r in B if r[0] == n], S)
+        exp += sum(1 for x, y in zip(ca, cb) if x > 0 and y > 0)
+    for style in case.get("styles") or OVERLAP_CALL_STYLES:
+        col.case(dict(case, style=style), nontrivial=bool(B), contract="count_overlap/per-chromosome")
+        IA = mk_rows(A)
+        parts = {n: mk([r[1:] for r in B if r[0] == n], n) for n, _ in sizes}
+        before = [snapshot(IA)] + [snapshot(parts[n]) for n, _ in sizes]
+
+        def call():
+            stream, other = groupby(IA, "chromosome"), per_chromosome_dict(parts)
+            if style == "positional":
+                return int(count_overlap(stream, other))
+            if style == "b-by-keyword":
+                return int(count_overlap(stream, intervals_b=other))
+            return int(count_overlap(intervals_a=stream, intervals_b=other))
+
+        got = col.guarded(call, "count_overlap:per-chromosome:" + style, case)
+        if got is None:
+            continue
+        col.check(got == exp, "count_overlap:per-chromosome:not-number-of-common-bases:" + style, case,
+                  "call style %s: got %r expected %r" % (style, got, exp))
+        unchanged(col, "count_overlap:per-chromosome", case, before, IA, *[parts[n] for n, _ in sizes])
+
 
 CHECKS = {"pileup": chk_coverage, "bg_pileup": chk_coverage, "mask": chk_coverage, "merge": chk_merge, "sort": chk_sort,
           "sort_history": chk_sort_history,
           "count_overlap": chk_pair, "intersect": chk_pair, "global_intersect": chk_global_intersect,
           "unique_intersect": chk_unique_intersect, "similarity": chk_similarity, "clip": chk_clip, "extend": chk_extend,
+          "merge_grouped": chk_merge_grouped, "count_overlap_grouped": chk_count_overlap_grouped,
           "geom_pileup": chk_geom, "geom_mask": chk_geom, "geom_clip": chk_geom, "geom_extend": chk_geom}
 
 
@@ -708,6 +828,50 @@ def gen_cases(tier, rng, rng_seed=0):
         for ivs in start_sorted_sequences(intervals_of(S), 3):
             for d in range(S + 1):
                 yield "merge", {"op": "merge", "S": S, "ivs": ivs, "d": d}
+    # == the per-chromosome entry point: grouped streams / per-chromosome dicts, every way of passing the arguments =========
+    def per_contig(sizes, maxns, make):
+        """every combination of one `make(S, maxn)` set per contig, as rows grouped by contig in the order of `sizes`"""
+        choices = [[[(n,) + tuple(iv) for iv in s] for s in make(S, k)] for (n, S), k in zip(sizes, maxns)]
+        for combo in itertools.product(*choices):
+            yield [r for part in combo for r in part]
+
+    def sorted_seqs(S, k):
+        return list(start_sorted_sequences(intervals_of(S), k))
+
+    # -- merge_intervals(groupby(I, "chromosome"), d): 1 contig --------------------------------------------------------------
+    for S in range(1, (3 if quick else 5) + 1):
+        sizes = [("chr1", S)]
+        for rows in per_contig(sizes, [2 if S == 5 else 3], sorted_seqs):
+            for d in range(S + 1):
+                if rows:
+                    yield "merge_grouped", {"op": "merge_grouped", "sizes": sizes, "rows": rows, "d": d}
+    # -- 2 and 3 contigs (names of unequal width, listed in and against string order), 0..2 intervals per contig; the same with
+    #    the chromosome column as a StringEncoding whose code order is not the order of appearance -------------------------------
+    if quick:
+        mscopes = [([("chr1", 3), ("chr2", 2)], [2, 1], None), ([("chr1", 2), ("chr2", 3)], [1, 2], None),
+                   ([("chr2", 3), ("chr10", 2)], [2, 1], ["chr10", "chr2"]), ([("chr2", 1), ("chr1", 3), ("chr10", 1)], [1, 2, 1], None)]
+    else:
+        mscopes = [([("chr1", 3), ("chr2", 3)], [2, 2], None), ([("chr2", 3), ("chr10", 2)], [2, 2], ["chr10", "chr2"]),
+                   ([("chr10", 4), ("chr1", 3)], [2, 1], None), ([("chr1", 3), ("chr2", 4)], [1, 2], None),
+                   ([("chr2", 2), ("chr1", 3), ("chr10", 2)], [1, 2, 1], None), ([("chr1", 1), ("chr2", 3), ("chr10", 3)], [1, 2, 1], None),
+                   ([("chr1", 2), ("chr2", 2), ("chr10", 3)], [1, 1, 2], ["chr2", "chr10", "chr1"])]
+    for sizes, maxns, encoding in mscopes:
+        for rows in per_contig(sizes, maxns, sorted_seqs):
+            if not rows:
+                continue
+            for d in range(max(S for _, S in sizes) + 1):
+                case = {"op": "merge_grouped", "sizes": sizes, "rows": rows, "d": d}
+                if encoding:
+                    case["encoding"] = encoding
+                yield "merge_grouped", case
+    # -- count_overlap(groupby(A, "chromosome"), {chromosome: B on it}) --------------------------------------------------------
+    for sizes, maxns in ([([("chr1", 2), ("chr2", 2)], [2, 2]), ([("chr1", 3)], [2])] if quick else
+                         [([("chr1", 2), ("chr2", 2)], [2, 2]), ([("chr1", 4)], [2]), ([("chr2", 3), ("chr10", 2)], [2, 2]),
+                          ([("chr1", 2), ("chr2", 1), ("chr10", 2)], [1, 1, 2])]):
+        sets = list(per_contig(sizes, maxns, disjoint_sets))
+        for A, B in itertools.product(sets, sets):
+            if A:
+                yield "count_overlap_grouped", {"op": "count_overlap_grouped", "sizes": sizes, "A": A, "B": B}
     # -- count_overlap / intersect: pairs of internally disjoint sorted sets ----------------------------------------
     for S in range(1, SMAX + 1):
         full = disjoint_sets(S, 3)
@@ -945,6 +1109,39 @@ def gen_cases(tier, rng, rng_seed=0):
             steps.append({"rows": rows, "ordering": prng.choice(pool4)})
         yield "sampled_permuted", {"op": "sort_history", "steps": steps}
 
+    # == the per-chromosome entry point, sampled (the exhaustive part follows the merge section above) ===================
+    # -- sampled: 2..4 larger contigs ----------------------------------------------------------------------------------------
+    grng = random.Random("C08-per-chromosome-%s" % rng_seed)
+    for i in range(100 if quick else 1000):
+        names = grng.sample(["chr1", "chr2", "chr10", "chrX"], grng.randint(2, 4))
+        sizes = [(n, grng.randint(7, 40)) for n in names]
+
+        def rand_rows(nonoverlapping):
+            rows = []
+            for n, S in sizes:
+                k = grng.randint(0, 6)
+                if nonoverlapping:
+                    cuts = sorted(grng.sample(range(S + 1), min(2 * k, S + 1) // 2 * 2))
+                    ivs = [(cuts[j], cuts[j + 1]) for j in range(0, len(cuts) - 1, 2)]
+                else:
+                    ivs = []
+                    for _ in range(k):
+                        a = grng.choice([0, S - 1] + list(range(S)))
+                        ivs.append((a, grng.choice([S, a + 1, a + 1, min(S, a + 2)] + list(range(a + 1, S + 1)))))
+                    ivs.sort(key=lambda x: x[0])
+                rows += [(n,) + iv for iv in ivs]
+            return rows
+
+        rows = rand_rows(False)
+        if rows:
+            case = {"op": "merge_grouped", "sizes": sizes, "rows": rows, "d": grng.choice([0, 1, 1, 2, 3, grng.randint(0, 40)])}
+            if grng.random() < 0.3:
+                case["encoding"] = grng.sample(names, len(names))
+            yield "sampled_grouped", case
+        A, B = rand_rows(True), rand_rows(True)
+        if A:
+            yield "sampled_grouped", {"op": "count_overlap_grouped", "sizes": sizes, "A": A, "B": B}
+
 
 def run(tier="quick", seed=0):
     quick = tier == "quick"
@@ -956,7 +1153,9 @@ def run(tier="quick", seed=0):
                     "1..2 contigs for jaccard/forbes; every (start,stop,strand,L) for clip/extend_to_size; then seeded samples on contigs "
                     "of 7..40 with 4..10 intervals. Then the two-set operations again on sets NOT listed in ascending order (every "
                     "permutation of both operands) and histories of 2..4 sort_intervals calls in one process that order the same "
-                    "chromosome names differently (sort_order lists, default, key functions, StringEncoding). "
+                    "chromosome names differently (sort_order lists, default, key functions, StringEncoding). Then the per-chromosome "
+                    "entry point of merge_intervals / count_overlap (grouped stream of a 1..4-contig genome, per-chromosome dict), every "
+                    "way of passing the stream and the other arguments (positional / keyword / omitted). "
                     "distinct = distinct (operation, input); non-trivial = non-empty input sets")
     col.bounds = {
         "intervals": "half-open [a,b), 0 <= a < b <= S; empty intervals (a == b) only for pileup/mask/extend_to_size/clip",
@@ -995,18 +1194,35 @@ def run(tier="quick", seed=0):
             "every triple of %d orderings; names chr1,chr2,chr10,chrX: every ordered pair of %d orderings (%s sort_order lists)" %
             (("", 8, 13, "4 of the 24") if quick else (" + rows sharing a contig", 10, 33, "all 24")),
         "sampled, unsorted listings and histories": "%d seeded rounds: contig 7..40, shuffled non-overlapping sets of 1..7 intervals for count_overlap/intersect; "
-            "a history of 2..4 sort calls on 4..10 random rows over 4 names with random orderings" % (300 if quick else 3000)}
+            "a history of 2..4 sort calls on 4..10 random rows over 4 names with random orderings" % (300 if quick else 3000),
+        "merge_intervals, per-chromosome entry point": "merge_intervals(groupby(I, 'chromosome'), d), d=0..max contig size, every call "
+            "style of {stream and distance positional; distance by keyword; stream and distance by keyword; distance left out (d=0)} a case of "
+            "its own; >= 1 row, rows of a contig adjacent and start-sorted (all tie orders). 1 contig: " +
+            ("S=1..3 with 1..3 intervals" if quick else "S=1..4 with 1..3 intervals, S=5 with 1..2") + "; 2 contigs: " +
+            ("sizes (3,2) with 0..2 / 0..1 intervals and (2,3) with 0..1 / 0..2; StringEncoding chromosome column (code order "
+             "against the order of appearance) sizes (3,2) with 0..2 / 0..1; 3 contigs (1,3,1) with 0..1 / 0..2 / 0..1" if quick else
+             "sizes (3,3) with 0..2 intervals per contig, (4,3) with 0..2 / 0..1, (3,4) with 0..1 / 0..2; StringEncoding chromosome column "
+             "(code order against the order of appearance) sizes (3,2) with 0..2 per contig and 3 contigs (2,2,3) with 0..1 / 0..1 / 0..2; "
+             "3 contigs (2,3,2) and (1,3,3) with 0..1 / 0..2 / 0..1") + "; contig names of unequal width, listed in and against string order",
+        "count_overlap, per-chromosome entry point": "count_overlap(groupby(A, 'chromosome'), {contig: B on it} marked with streams.grouped_dict), "
+            "call styles {both positional; B by keyword; both by keyword}; per contig non-overlapping sets, A with >= 1 row: " +
+            ("2 contigs (2,2) and 1 contig S=3, 0..2 intervals per contig, every ordered pair" if quick else
+             "2 contigs (2,2), (3,2), 1 contig S=4 with 0..2 intervals per contig, 3 contigs (2,1,2) with 0..1 / 0..1 / 0..2, every ordered pair"),
+        "sampled, per-chromosome entry point": "%d seeded rounds: 2..4 contigs of 7..40 in random order, 0..6 intervals per contig, distance from "
+            "{0,1,2,3,random 0..40}, 30%% with a StringEncoding column; one merge and one count_overlap case per round, every call style" % (100 if quick else 1000)}
     # wall-clock allotment (seconds) of each section, counted from the section's own start, so that a slow section
     # (slow machine, or a fault that makes every call raise) cannot starve the later ones.  Typical use is about
     # half of it (quick ~35 s, thorough ~6 min); the sum is the worst case.
     if quick:
         allot = {"clip": 2, "extend": 2, "geometry": 4, "merge": 6, "pairs": 8, "global_intersect": 2, "coverage": 11, "sort": 9,
                  "unique_intersect": 9, "similarity": 12, "sampled": 4,
-                 "pairs_permuted": 6, "two_set_permuted": 4, "similarity_permuted": 4, "sort_history": 5, "sampled_permuted": 2}
+                 "pairs_permuted": 6, "two_set_permuted": 4, "similarity_permuted": 4, "sort_history": 5, "sampled_permuted": 2,
+                 "merge_grouped": 10, "count_overlap_grouped": 3, "sampled_grouped": 2}
     else:
         allot = {"clip": 5, "extend": 8, "geometry": 25, "merge": 15, "pairs": 30, "global_intersect": 25, "coverage": 55, "sort": 105,
                  "unique_intersect": 105, "similarity": 170, "sampled": 57,
-                 "pairs_permuted": 45, "two_set_permuted": 25, "similarity_permuted": 40, "sort_history": 30, "sampled_permuted": 12}
+                 "pairs_permuted": 45, "two_set_permuted": 25, "similarity_permuted": 40, "sort_history": 30, "sampled_permuted": 12,
+                 "merge_grouped": 75, "count_overlap_grouped": 20, "sampled_grouped": 12}
     import time
     started = {}
     cut = set()
